@@ -2,12 +2,12 @@
     of the window exactly once, on the sheet of its transaction type, with the computed figures; sheets
     without rows are omitted; nothing is lost or overwritten when several assets share a sheet.
 
-    Statements only; proofs are in Proofs/TaxReportProofs.v.  The model is Model/TaxReport.v, instantiated
+    Statements only; proofs are in Proofs/TaxReportProofs.v and (Legend sheet) Proofs/TaxReportLegend.v.  The model is Model/TaxReport.v, instantiated
     with the tables regenerated from the plugins' source and the shipped templates on every run
     ([tax_tables_us], [tax_tables_ie] in Model/Generated.v).  Theorems quantified over [T] hold for any tables
     that pass the finite check [tables_ok]; the two instances are re-proved by computation. *)
 From RP2V Require Import Base.Prelude Base.Time Base.Dec Model.Types Model.Generated Model.Txn Model.Computed Model.Grid
-  Model.ReportInput Model.TaxReport Proofs.TaxReportProofs.
+  Model.ReportInput Model.TaxReport Proofs.FullReportLayout Proofs.TaxReportProofs Proofs.TaxReportLegend.
 Open Scope Z_scope.
 
 (** ---- finite facts about the regenerated maps and templates *)
@@ -150,6 +150,67 @@ Theorem C14_ie_report_produced : forall i acs,
   exists out, tax_report tax_tables_ie i = Ok out.
 Proof. exact ie_report_produced. Qed.
 
+(** ---- the Legend sheet (Proofs/TaxReportLegend.v)
+
+    finite fact over the regenerated template geometry + the row of "Accounting Method": the static cells of the template's
+    __Legend_<plugin> sheet lie inside it, it has at most 1024 columns, the three cells (r, 1), (r + 1, 1), (r + 2, 1) written
+    next to "Accounting Method" / "From Date Filter" / "To Date Filter" lie inside it, cell (r, 0) holds a template label and the
+    three cells are empty in the template *)
+Theorem C14_us_legend_fits : legend_fits tax_tables_us = true.
+Proof. exact us_legend_fits. Qed.
+Theorem C14_ie_legend_fits : legend_fits tax_tables_ie = true.
+Proof. exact ie_legend_fits. Qed.
+
+(** a produced report has exactly one sheet named "Legend"; it is the template's legend sheet (its size, its static cells as
+    labels) followed by three writes; sizing, the fraction loop and the pruning of empty sheets leave it untouched.  The legend
+    states the method(s) and the date filters of THIS run: the cell next to "Accounting Method" is written once and finally
+    holds the method string of the schedule ([legend_method], see C14_legend_method_string), the two cells below hold the from /
+    to date actually passed, or "non-specified" for the open end; no write of the sheet lies outside it *)
+Theorem C14_legend_of_report : forall T i out, tables_ok T = true -> legend_fits T = true -> tax_report T i = Ok out ->
+  exists s r m, filter is_legend out = [s] /\ In s out /\ sw_name s = s_Legend /\
+    tt_legend_method_row T = Some r /\ legend_method (tt_legend_single_by_value T) (rp_sched i) = Ok m /\
+    sheet_ok s = true /\
+    writes_at (sw_writes s) r 1 = [cw r 1 (PStr m)] /\
+    writes_at (sw_writes s) (r + 1) 1 = [cw (r + 1) 1 (if rp_from i =? MIN_DAY then PStr s_nonspec else PDay (rp_from i))] /\
+    writes_at (sw_writes s) (r + 2) 1 = [cw (r + 2) 1 (if rp_to i =? MAX_DAY then PStr s_nonspec else PDay (rp_to i))] /\
+    cell_at (sw_writes s) r 1 = PStr m /\
+    cell_at (sw_writes s) (r + 1) 1 = (if rp_from i =? MIN_DAY then PStr s_nonspec else PDay (rp_from i)) /\
+    cell_at (sw_writes s) (r + 2) 1 = (if rp_to i =? MAX_DAY then PStr s_nonspec else PDay (rp_to i)) /\
+    cell_at (sw_writes s) r 0 = PLabel.
+Proof. intros T i out H. exact (legend_of_report T (tables_ok_good T H) i out). Qed.
+(** the sheet itself: the template's __Legend_<plugin> sheet, then the three cells *)
+Theorem C14_legend_sheet_shape : forall T i out, tables_ok T = true -> tax_report T i = Ok out ->
+  exists tp r m, In tp (tt_template T) /\ tp_name tp = legend_template_name T /\
+    tt_legend_method_row T = Some r /\ legend_method (tt_legend_single_by_value T) (rp_sched i) = Ok m /\
+    filter is_legend out = [{| sw_name := s_Legend; sw_rows := tp_rows tp; sw_cols := tp_cols tp;
+                               sw_writes := label_writes tp ++ [cw r 1 (PStr m); cw (r + 1) 1 (day_cell MIN_DAY (rp_from i));
+                                                                cw (r + 2) 1 (day_cell MAX_DAY (rp_to i))] |}].
+Proof. intros T i out H. exact (legend_sheet_spec T (tables_ok_good T H) i out). Qed.
+(** the method string (source as repaired, F10: a one-entry schedule is taken by value -- both plugins share
+    [_initialize_output_file]): the single method whatever year it is registered under, otherwise "y:M" / "y0->y:M" per entry *)
+Theorem C14_legend_method_string : forall sched, exists m, legend_method true sched = Ok m /\
+  (forall y me, sched = [(y, me)] -> m = meth_upper me) /\
+  ((length sched <> 1)%nat -> m = join_comma (sched_parts 1970 sched)).
+Proof. exact legend_method_by_value. Qed.
+Theorem C14_legend_single_method_by_value : tt_legend_single_by_value tax_tables_us = true /\ tt_legend_single_by_value tax_tables_ie = true.
+Proof. exact (conj us_by_value ie_by_value). Qed.
+(** with C14_data_sheets_within_capacity: EVERY sheet of a produced report passes [sheet_ok] *)
+Theorem C14_all_sheets_within_capacity : forall T i out, tables_ok T = true -> append_ok T -> legend_fits T = true ->
+  tax_report T i = Ok out -> forall s, In s out -> sheet_ok s = true.
+Proof. intros T i out H A F. exact (all_sheets_within_capacity T (tables_ok_good T H) i out A F). Qed.
+Theorem C14_us_all_sheets_within_capacity : forall i out, tax_report tax_tables_us i = Ok out -> forall s, In s out -> sheet_ok s = true.
+Proof. intros i out. exact (all_sheets_within_capacity tax_tables_us (tables_ok_good _ us_tables_ok) i out us_append_ok us_legend_fits). Qed.
+Theorem C14_ie_all_sheets_within_capacity : forall i out, tax_report tax_tables_ie i = Ok out -> forall s, In s out -> sheet_ok s = true.
+Proof. intros i out. exact (all_sheets_within_capacity tax_tables_ie (tables_ok_good _ ie_tables_ok) i out ie_append_ok ie_legend_fits). Qed.
+(** non-vacuity: the two-asset example (schedule 1970:FIFO, no date filters): "FIFO", "non-specified", "non-specified" *)
+Theorem C14_legend_nonvacuous : exists i out s,
+  rd_rinput ex2_code = Some (Ok i, []) /\ tax_report tax_tables_us i = Ok out /\ filter is_legend out = [s] /\
+  sheet_ok s = true /\
+  (exists r, tt_legend_method_row tax_tables_us = Some r /\
+     cell_at (sw_writes s) r 1 = PStr (meth_upper Fifo) /\ cell_at (sw_writes s) (r + 1) 1 = PStr s_nonspec /\
+     cell_at (sw_writes s) (r + 2) 1 = PStr s_nonspec /\ cell_at (sw_writes s) r 0 = PLabel).
+Proof. exact legend_example. Qed.
+
 Print Assumptions C14_us_tables_consistent.
 Print Assumptions C14_ie_tables_consistent.
 Print Assumptions C14_us_routing_total.
@@ -172,3 +233,13 @@ Print Assumptions C14_report_produced.
 Print Assumptions C14_data_sheets_within_capacity.
 Print Assumptions C14_us_report_produced.
 Print Assumptions C14_ie_report_produced.
+Print Assumptions C14_us_legend_fits.
+Print Assumptions C14_ie_legend_fits.
+Print Assumptions C14_legend_of_report.
+Print Assumptions C14_legend_sheet_shape.
+Print Assumptions C14_legend_method_string.
+Print Assumptions C14_legend_single_method_by_value.
+Print Assumptions C14_all_sheets_within_capacity.
+Print Assumptions C14_us_all_sheets_within_capacity.
+Print Assumptions C14_ie_all_sheets_within_capacity.
+Print Assumptions C14_legend_nonvacuous.
